@@ -21,7 +21,11 @@ Binding: call histories simulated by TLC (ClassModelImplSim.cfg) and seeded
         history all 2^3 flag combinations x 4 property lists, EnumerateClasses
         / EnumerateClassNames / EnumerateInstances / EnumerateInstanceNames,
         DeleteClass; TLC recomputes Exposed from its own abstract forest and
-        judges every event.
+        judges every event.  Qualifier uses carry explicit flavors (MOF
+        `: Restricted DisableOverride` / CIMQualifier attributes), overriding
+        methods may change the parameter list, client-side CIMClass objects
+        are passed again / edited in place (ClientEdit), a quarter of the
+        histories live outside the connection's default namespace.
 """
 import random
 import re
@@ -332,6 +336,13 @@ def judge(ctx, jobs, drivers, pre=()):
             path = ""
             if ev["op"] in ("Create", "Modify", "Compile"):
                 path = "[%s]" % ev["via"]
+                if clause.endswith((".ValidModificationRejected",
+                                    ".ValidClassRejected")):
+                    # how it was rejected and whether the forest lives
+                    # outside the connection's default namespace
+                    path = "[%s,%s%s%s]" % (
+                        ev["via"], ev["kind"], ev["code"],
+                        ",nondefault-namespace" if ev.get("nsx") else "")
             sig = "C12:" + clause + path
             ctx.report(sig, "%s: %s" % (d.calls[idx - 1][:260], clause),
                        {"dseed": dseed, "case_seed": d.case_seed,
